@@ -3,6 +3,7 @@
 // C09 (search limits are honoured)
 #include "../ref/refsolve.h"
 #include "searchlib.h"
+#include "ucirig.h"
 
 #include <malloc.h>
 
@@ -624,10 +625,130 @@ ref::Pos instant_position(Tape& t)
     return p;
 }
 
+// ---- C09 at the UCI level: sequences of `go` commands of different kinds in one engine process, under the virtual clock.
+// Each search must honour ITS OWN limits (nothing may leak from an earlier `go`), a depth limit must hold also when a time
+// limit is given in the same command, and a clock search must end within 70% of the mover's remaining time (C20 seen from outside).
+struct UciSeq
+{
+    std::atomic<uint64_t> visits{0};
+    std::atomic<uint64_t> rate{100};
+    std::atomic<uint64_t> cap{900000};
+};
+UciSeq& useq()
+{
+    static UciSeq u;
+    return u;
+}
+void useq_cb(int point, Search* s)
+{
+    if (point != verif::NODE && point != verif::QNODE) return;
+    UciSeq& U = useq();
+    uint64_t v = U.visits.fetch_add(1, std::memory_order_relaxed) + 1;
+    verif::virtual_elapsed_ms = int64_t(v / U.rate.load(std::memory_order_relaxed));
+    uint64_t cap = U.cap.load(std::memory_order_relaxed);
+    if (v == cap || (v > cap && (v - cap) % 50000 == 0)) s->stop();
+}
+
+bool c09_uci_sequence(Tape& t, Report& rep)
+{
+    rigns::Rig& R = rigns::rig();
+    UciSeq& U = useq();
+    verif::virtual_clock = true;
+    verif::callback = &useq_cb;
+    const uint64_t SLACK = 70000;  // limits are polled every 40,960 visits; unwinding costs a few thousand more
+    U.rate = 80 + t.choose(80);
+    U.cap = 700000;
+    R.send("ucinewgame");
+    std::string history;
+    int n = 2 + int(t.choose(2));
+    for (int i = 0; i < n; ++i)
+    {
+        ref::Pos root = root_with_moves(t, rep, 40).cur;
+        if (ref::legal_moves(root).size() < 2) continue;  // a single reply gets a fixed 500 ms budget by design
+        int kind = t.weighted({3, 3, 2, 2, 1});
+        std::string go = "go";
+        uint64_t budget_ms = 0;  // 0 = no time budget to check
+        int depthLimit = 0;
+        static const int MT[] = {1000, 2000, 3000, 3000};
+        static const int CL[] = {1000, 1000, 3000, 10000};
+        if (kind == 0)
+        {
+            int mt = MT[t.choose(4)];
+            go += " movetime " + std::to_string(mt);
+            budget_ms = uint64_t(mt);
+        }
+        else if (kind == 1)
+        {
+            int w = CL[t.choose(4)], b = CL[t.choose(4)];
+            int inc = int(t.choose(3)) * 100;
+            go += " wtime " + std::to_string(w) + " btime " + std::to_string(b) + " winc " + std::to_string(inc) + " binc " + std::to_string(inc);
+            if (t.flag()) go += " movestogo " + std::to_string(1 + t.choose(40));
+            budget_ms = uint64_t((root.wtm ? w : b) * 7 / 10);
+        }
+        else if (kind == 2)
+        {
+            depthLimit = 1 + int(t.choose(4));
+            go += " depth " + std::to_string(depthLimit);
+        }
+        else if (kind == 3)
+        {
+            // depth together with a time limit: the depth limit must still hold.  (The engine lets the depth limit take
+            // precedence and ignores the time in this combination; the property only requires that iterations stay <= d
+            // and that the search terminates, so the time budget is NOT checked here.)
+            depthLimit = 1 + int(t.choose(3));
+            if (t.flag())
+                go += " depth " + std::to_string(depthLimit) + " movetime " + std::to_string(MT[t.choose(4)]);
+            else
+            {
+                int c = CL[t.choose(4)];
+                go += " depth " + std::to_string(depthLimit) + " wtime " + std::to_string(c) + " btime " + std::to_string(c) + " winc 0 binc 0";
+            }
+        }
+        else
+            go += " nodes " + std::to_string(1000 + t.choose(20000));
+        std::string desc = "position fen " + ref::to_fen(root) + " ; " + go;
+        history += (history.empty() ? "" : " || ") + desc;
+        rep.decoded = "uci sequence (virtual clock " + std::to_string(U.rate.load()) + " visits/ms): " + history;
+        size_t mark = R.out.size();
+        R.send("position fen " + ref::to_fen(root));
+        U.visits = 0;
+        R.send(go);
+        long bm = R.out.wait_line(mark, rigns::is_bestmove, 300000);
+        rep.eval();
+        rep.cls("c09:uci_sequence_go");
+        if (i > 0) rep.cls("c09:uci_go_after_another_go");
+        if (kind == 3) rep.cls("c09:uci_depth_and_time_together");
+        uint64_t v = U.visits.load();
+        if (bm < 0)
+        {
+            R.send("stop");
+            R.out.wait_line(mark, rigns::is_bestmove, 300000);
+            return rep.fail("limits:uci:no_bestmove", "no bestmove within the safety timeout\n " + rep.decoded);
+        }
+        rep.nontriv(fnv1a(desc + std::to_string(i)));
+        if (i == 1) rep.sample("c09:uci_sequence", rep.decoded, 2);
+        int maxDepth = 0, nb = 0;
+        for (auto& l : R.out.snapshot(mark))
+        {
+            if (rigns::is_bestmove(l)) ++nb;
+            if (l.rfind("info depth ", 0) == 0) maxDepth = std::max(maxDepth, atoi(l.c_str() + 11));
+        }
+        if (nb != 1) return rep.fail("limits:uci:bestmove_count", std::to_string(nb) + " bestmove lines\n " + rep.decoded);
+        if (depthLimit && maxDepth > depthLimit)
+            return rep.fail("limits:uci:deeper_than_requested", "iteration " + std::to_string(maxDepth) + " reported for '" + go + "'\n " + rep.decoded);
+        if (budget_ms && v > budget_ms * U.rate.load() + SLACK)
+            return rep.fail("limits:uci:time_budget_exceeded",
+                            "'" + go + "' ran for " + std::to_string(v) + " node visits = " + std::to_string(v / U.rate.load()) + " virtual ms; its own budget is " +
+                                std::to_string(budget_ms) + " ms (+ " + std::to_string(SLACK) + " visits of polling slack)\n " + rep.decoded);
+    }
+    return true;
+}
+
 bool prop_C09(Tape& t, Report& rep)
 {
     br::init_engine();
     tune_malloc();
+    if (t.chance(1, 20)) return c09_uci_sequence(t, rep);
     sl::Session S;
     int nsearch = 1 + int(t.choose(2));
     std::string history;
